@@ -35,7 +35,7 @@ def is_dest(name):
 class History:
     """Executes JSON steps on a World and feeds monitors."""
 
-    def __init__(self, scratch, params, monitors):
+    def __init__(self, scratch, params, monitors, inject=False):
         self.params = params
         shape = Shape(tuple(tuple(d) for d in params['devs']),
                       tuple(tuple(s) for s in params['stabs']),
@@ -44,10 +44,16 @@ class History:
                            settings=params.get('settings'),
                            cmd_line_options=params.get('options', ()))
         self.monitors = monitors
+        self.injector = None
+        if inject:
+            from vf.sim.inject import Injector
+            self.injector = self.world.injector = Injector(self.world)
+            self.injector.install()
         self.steps = []
         self.violations = []   # (message, signature)
         self.stats = {}
         self.flags = set()
+        self.mon_state = {}   # monitor state that follows snapshots
         self.job_statuses = []
         for m in monitors:
             m.start(self)
@@ -145,6 +151,8 @@ class History:
         elif op == 'admin':
             job = w.make_admin_job(step['kind'], **step.get('args', {}))
             results.append(self.run(job, step))
+        elif op == 'placed':
+            results.extend(self.apply_placed(step))
         elif op == 'drain':
             # run whatever jobs an admin job left in the task queue
             n = 0
@@ -159,6 +167,104 @@ class History:
         else:
             raise ValueError('unknown op %r' % op)
         return results
+
+    # -- jobs from recipes, dry runs, third-party placements ---------------
+    def job_from(self, js):
+        w = self.world
+        if js['op'] == 'pr_event':
+            if js['pr'] not in [p[0] for p in w.all_prs()]:
+                return None
+            return w.make_pr_job(js['pr'])
+        if js['op'] == 'commit_event':
+            sha = self.resolve(js['sel'])
+            return w.make_commit_job(sha) if sha else None
+        if js['op'] == 'admin':
+            return w.make_admin_job(js['kind'], **js.get('args', {}))
+        return None
+
+    def dry_run(self, js):
+        """Run the job of step js on a snapshot, count its pushes and
+        remote-mutating operations, restore.  Not logged, not monitored."""
+        w = self.world
+        snap = w.snapshot()
+        try:
+            job = self.job_from(js)
+            if job is None:
+                return None
+            self.injector.reset_plan()
+            res = w.run_job(job)
+            info = {'pushes': list(self.injector.pushes),
+                    'ops': list(self.injector.ops),
+                    'ncmd': self.injector.ncmd,
+                    'cmds': list(getattr(self.injector, 'cmds', [])),
+                    'status': res.status,
+                    'moved': [r for tx in res.txs for a, _, _, r in tx
+                              if a == 'berte'],
+                    'heads1': res.heads1}
+            return info
+        finally:
+            self.injector.reset_plan()
+            w.restore(snap)
+            w.drop_snapshot(snap)
+
+    def third_party(self, action, pr=None):
+        """One concurrent third-party action (actor 'third')."""
+        w = self.world
+        kind = action['kind']
+        if kind == 'new_branch':
+            base = (w.chain or w.hot)[0]
+            if base not in w.heads():
+                return
+            w.fetch()
+            w.g('checkout', '-q', '-B', 'vf-third', 'origin/' + base)
+            w.write('third_%d.txt' % w.clock, 'third\n')
+            w.commit('third party work')
+            w.push('vf-third:refs/heads/' + action['name'], actor='third',
+                   check=False)
+            w.g('checkout', '-q', '--detach')
+        elif kind in ('push_src', 'force_src'):
+            info = w.prs.get(action.get('pr'))
+            if not info or info['src'] not in w.heads():
+                return
+            w.fetch()
+            w.g('checkout', '-q', '-B', 'vf-third', 'origin/' + info['src'])
+            w.write('third_%d.txt' % w.clock, 'third\n')
+            if kind == 'push_src':
+                w.commit('third party commit on source')
+                w.push('vf-third:refs/heads/' + info['src'], actor='third',
+                       check=False)
+            else:
+                w.g('commit', '-q', '--amend', '-m', 'rewritten by third')
+                w.push('vf-third:refs/heads/' + info['src'], force=True,
+                       actor='third', check=False)
+            w.g('checkout', '-q', '--detach')
+        w.note_commits()
+
+    def apply_placed(self, step):
+        """Run step['job'] on a snapshot with a third-party action placed
+        immediately before its push number step['push']; monitors judge it;
+        the world is restored afterwards."""
+        import copy
+        w = self.world
+        snap = w.snapshot()
+        saved = copy.deepcopy(self.mon_state)
+        try:
+            job = self.job_from(step['job'])
+            if job is None:
+                return []
+            inj = self.injector
+            inj.reset_plan()
+            inj.before_push[step['push']] = \
+                lambda: self.third_party(step['action'])
+            self.placement = step
+            res = self.run(job, step)
+            return [res]
+        finally:
+            self.placement = None
+            self.injector.reset_plan()
+            self.mon_state = saved
+            w.restore(snap)
+            w.drop_snapshot(snap)
 
     def run(self, job, step):
         for m in self.monitors:
@@ -190,8 +296,8 @@ class Monitor:
         return ()
 
 
-def replay_case(scratch, case, monitors):
-    h = History(scratch, case['params'], monitors)
+def replay_case(scratch, case, monitors, inject=False):
+    h = History(scratch, case['params'], monitors, inject=inject)
     try:
         for step in case['steps']:
             h.apply(step)
